@@ -97,6 +97,7 @@ type fx struct {
 	retCount    int
 	warnings    []string
 	usedSpecs   map[string]bool
+	hide        map[string]bool
 }
 
 func (x *fx) declare(name, sort string) {
@@ -229,6 +230,7 @@ func newFx(g *Gen, fn *ssa.Function, c *Contract, pass int) *fx {
 		written: map[int]map[string]bool{}, havocAllIn: map[int]bool{},
 		vals: map[ssa.Value]*Val{}, freshRefs: map[string]bool{}, closures: map[ssa.Value]*ssa.MakeClosure{},
 		blockPC: map[int]string{}, blockMem: map[int]*memNode{}, headerVal: map[int]map[string]*Val{}, measures: map[int][]string{},
+		hide: c.Hide,
 		abstracted: map[string]bool{}, assumptions: map[string]bool{}, calls: map[string]bool{}, trusted: map[string]bool{},
 	}
 	x.memSort["$top"] = "Int"
@@ -524,7 +526,7 @@ func (x *fx) valid(term string, t types.Type, top string) string {
 // exceed the address space); keeps index arithmetic free of overflow.
 func (x *fx) lenBound(term string) string {
 	if x.mode == ModeBV {
-		return "(bvsle " + term + " (_ bv4611686018427387904 64))"
+		return "(bvsle " + term + " (_ bv1099511627776 64))"
 	}
-	return "(<= " + term + " 4611686018427387904)"
+	return "(<= " + term + " 1099511627776)"
 }
